@@ -7,7 +7,7 @@
    operations; Apply) on any lines in any order, SaveAutofixChanges, the
    executable-bit check; [wf_groups] says that the logical lines are a partition
    of the physical lines of the file (any grouping into continuation lines). *)
-From PV Require Import Lib.Bytes Spec.ApplyLog Model.Autofix Proofs.ApplyLog Proofs.Autofix Proofs.AutofixViews Proofs.AutofixSort Proofs.AutofixSorted Gen.ReplaceArgs.
+From PV Require Import Lib.Bytes Spec.ApplyLog Model.Autofix Proofs.ApplyLog Proofs.Autofix Proofs.AutofixViews Proofs.AutofixSort Proofs.AutofixSorted Proofs.AutofixCustom Gen.ReplaceArgs.
 From Coq Require Import Permutation.
 Open Scope Z_scope.
 
@@ -152,6 +152,46 @@ Proof.
   - split; [vm_compute; reflexivity|]. repeat constructor; discriminate.
   - eexists. split; [vm_compute; reflexivity|]. split; vm_compute; reflexivity.
 Qed.
+
+(* ---- Autofix.Custom and --only (round 4) ----
+   Custom as coded: `if fix.skip() { return }; fixer(Opts.ShowAutofix, Opts.Autofix)`.
+   The fixer has an effect outside the line's texts (checkExecutable: chmod when autofix). *)
+
+(* the fixer runs iff the diagnostic of the fix is selected by --only; if it does not
+   run, the line (texts, actions) is untouched *)
+Theorem C03_custom_runs_iff_selected :
+  forall o ri d l l' ran f,
+    l_fix l = Some f -> custom o ri d l = Ok (l', ran) ->
+    ran = shall_be_logged o (f_diag f) /\ (ran = false -> l' = l).
+Proof. exact custom_runs_iff_selected. Qed.
+Print Assumptions C03_custom_runs_iff_selected.
+
+(* a Custom fixer had its effect (the executable bits were cleared) ==> --autofix was
+   given, "Should not be executable." is selected by --only, and exactly the AUTOFIX line
+   "Clearing executable bits" was printed for that file: for ALL option records *)
+Theorem C03_custom_effect_implies_logged :
+  forall o file x c printed ops,
+    check_executable o file x c = Ok (printed, ops) -> ops <> [] ->
+    ops = [OpChmod file] /\ printed = [(DChmod, 0)] /\ o_autofix o = true /\
+    shall_be_logged o not_executable_format = true.
+Proof. exact custom_effect_implies_logged. Qed.
+Print Assumptions C03_custom_effect_implies_logged.
+
+(* deselected by --only: neither a chmod nor a line, whatever the other options *)
+Theorem C03_custom_skipped_no_effect :
+  forall o file x c,
+    shall_be_logged o not_executable_format = false ->
+    check_executable o file x c = Ok ([], []).
+Proof. exact custom_skipped_no_effect. Qed.
+Print Assumptions C03_custom_skipped_no_effect.
+
+(* non-vacuity: --autofix --only "Trailing whitespace" on an executable, uncommitted
+   file does nothing; without --only the mode is fixed and logged *)
+Example C03_custom_witness :
+  check_executable (Opts true false [[84;114;97;105;108]%N]) ex_file true false = Ok ([], []) /\
+  check_executable (Opts true false []) ex_file true false = Ok ([(DChmod, 0)], [OpChmod ex_file]) /\
+  check_executable (Opts false true []) ex_file true false = Ok ([(DChmod, 0)], []).
+Proof. vm_compute. repeat split; reflexivity. Qed.
 
 (* the static side of the guard (gen/c03.go, regenerated on every run): the only string
    literals with a newline that are passed to Replace / ReplaceAfter / ReplaceAt are
